@@ -492,7 +492,13 @@ pub fn run_rot(plan: &Plan) -> RunResult {
     let max_damage = plan.knob("rot_max_damage", 600) as usize;
     rng.shuffle(&mut files);
     // prefer one file of each class over time: seeded rotation
-    files.sort_by_key(|(k, _)| (path_class(k) as *const str as *const u8 as usize).wrapping_add(plan.seed as usize) % 3);
+    let class_no = |k: &str| match path_class(k) {
+        "wal" => 0usize,
+        "meta" => 1,
+        "partition" => 2,
+        _ => 3,
+    };
+    files.sort_by_key(|(k, _)| class_no(k).wrapping_add(plan.seed as usize) % 3);
     for (path, len) in files.into_iter().take(files_per_run) {
         let mut damages: Vec<Damage> = Vec::new();
         for off in 0..len {
